@@ -31,6 +31,18 @@ def run(tier, seed, prop='C04', p_set=0.45, nops=(1, 30)):
         except Exception as e:  # noqa
             chk.violation({'why': 'generated workbook failed to translate: %r' % (e,), 'stream': 'setup', 'book': repr(book.cells)[:500]})
             continue
+        if b % 6 == 0:
+            import datetime as _dt
+            exv = realcode.executor_for(cls)
+            Cellv = m['Cell']
+            special = [_dt.datetime(2024, 1, 1, 13, 30), _dt.datetime(2024, 1, 1), _dt.date(2024, 2, 29), _dt.datetime(1999, 12, 31, 23, 59, 59, 999999), 'x' * 300, 10 ** 30, -0.0, 1e-300]
+            for k, v in enumerate(special):
+                exv.set_cells([Cellv(0, 20 + k, 30, v)])
+            for k, v in enumerate(special):
+                got = exv.get_cell(Cellv(0, 20 + k, 30)).value
+                chk.count('law:override-value-kept')
+                if type(got) is not type(v) or got != v or repr(got) != repr(v):
+                    chk.violation({'why': 'an override is not reported with exactly the value that was supplied', 'supplied': repr(v), 'impl': repr(got), 'stream': 'override-value'})
         prefix = book.request_prefix()
         for hno in range(per_book):
             ops = em.gen_ops(book, rng, rng.randint(*nops), p_set)
